@@ -171,6 +171,8 @@ def directed(ctx, only=None):
         case = {"program": prog, "ops": ops, "codes": {1: ("T", "F"), 2: ("T", "F")}, "masks": [3], "directed": name}
         D.run_one(ctx, case, _judge_directed(name), nontrivial=lambda *a: True)
         ctx.count("directed:definition-matrix")
+    if only in (None, "odd-names"):
+        odd_names(ctx)
     # OLD.<unknown> -> AttributeError naming the attribute
     if only in (None, "old-unknown"):
         @icontract.snapshot(lambda x: x, name="known")
@@ -197,6 +199,48 @@ def directed(ctx, only=None):
             if got != "ok":
                 ctx.fail("OLD-unknown|%s" % label, {"directed": "old-unknown"},
                          "reading OLD.nope must raise an AttributeError naming it, got: %s" % got)
+
+
+def odd_names(ctx):
+    """Snapshot names are arbitrary identifiers: `self` (the unnamed capture of `lambda self: ...`), `mapping`, `kwargs`,
+    `name`, `OLD`-like words - whatever the captured value is called, OLD.<name> holds it (sync and async)."""
+    import icontract
+    from vf.progmodel.run import drive
+
+    for is_async in (False, True):
+        for name, unnamed in (("self", True), ("self", False), ("mapping", True), ("mapping", False), ("kwargs", False),
+                              ("name", False), ("cls", False), ("snapshot", False), ("args", False)):
+            seen = []
+            param = name if unnamed else "x"
+            cap = eval("lambda %s: ('captured', %s)" % (param, param))
+            post = lambda OLD: seen.append(getattr(OLD, name)) or True  # noqa
+            deco_snap = icontract.snapshot(cap) if unnamed else icontract.snapshot(cap, name=name)
+            src = "%sdef f(%s):\n    return 1\n" % ("async " if is_async else "", param)
+            g = {}
+            exec(src, g)
+            try:
+                f = deco_snap(icontract.ensure(post)(g["f"]))
+                if param == "self":
+                    holder = type("K", (), {"f": f})()
+                    r = holder.f()
+                    arg = holder
+                else:
+                    arg = {"k": 1} if param == "mapping" else 5
+                    r = f(arg)
+                if is_async:
+                    r = drive(r)
+                got = ("ret", r, list(seen))
+                want = ("ret", 1, [("captured", arg)])
+            except BaseException as e:  # noqa
+                got = ("exc", type(e).__name__, str(e)[:120])
+                want = ("ret", 1)
+            label = "%s snapshot %s %r%s" % ("async" if is_async else "sync", "unnamed, on the parameter" if unnamed else "named", name,
+                                            "" if unnamed else " (capturing x)")
+            ctx.case(["odd-name", is_async, name, unnamed], True, sample={"directed": label, "outcome": list(got)[:2]})
+            ctx.count("directed:odd-snapshot-names")
+            if got != want:
+                ctx.fail("odd-snapshot-name|%s" % name, {"directed": "odd-names"},
+                         "%s: the postcondition must see OLD.%s == the captured value and the call return 1; got %r" % (label, name, got))
 
 
 def _judge_directed(name):
